@@ -474,6 +474,10 @@ def make_live_classes():
             return True
 
         def process_market_book(self, market, market_book):
+            reg = self.world.framework.markets.markets.get(market.market_id)
+            if reg is not market or market.market_book is not market_book:
+                # the strategy must be handed THE market of the framework (the one holding its orders), with this book
+                self.world.market_identity.append((self.name, market.market_id, reg is market, market.market_book is market_book))
             for o in market.blotter.strategy_orders(self):
                 if not any(o is k for k in self.known):
                     self.known.append(o)
@@ -632,6 +636,7 @@ class LiveWorld:
         self.budgets = dict(fill=1, lapse=0, dup=0, stale=0, tick=0, crash=0)
         self.budgets.update(budgets or {})
         self.errors = []
+        self.market_identity = []
         self.local = threading.local()
         self.clock_ms = T0
         self.slept = []
@@ -733,9 +738,14 @@ class LiveWorld:
         self.trade_status_cb = (lambda trade, prev, new, site: tst_cb(self, trade, prev, new, site)) if tst_cb else None
         # market books: one real MarketBook per market from the stream-line generator
         self.books = {}
+        self.pending_books = []
         for mid in self.markets:
             self.books[mid] = self._make_book(mid)
-            self.dispatch(self._book_event(mid))
+            if getattr(self, "late_books", False):
+                # after a restart the first market books may arrive after the first order-stream image ("B" events)
+                self.pending_books.append(mid)
+            else:
+                self.dispatch(self._book_event(mid))
 
     def _make_book(self, mid, status="OPEN"):
         from betfairlightweight.streaming.cache import MarketBookCache
@@ -908,12 +918,14 @@ class LiveWorld:
         if self.budgets["tick"] > 0:
             ev.append(("TICK",))
         if self.budgets["crash"] > 0:
-            ev.append(("CRASH", "executable"))
-            ev.append(("CRASH", "all"))
+            for img in getattr(self, "crash_images", ("executable", "all")):
+                ev.append(("CRASH", img))
+        if getattr(self, "pending_books", None):
+            ev.append(("B",))
         return ev
 
     def quiescent(self):
-        return self.script_pos >= len(self.script) and not self.pool.outstanding() and not self.exchange.snap_queue and not self.exchange.pending_async
+        return self.script_pos >= len(self.script) and not self.pool.outstanding() and not self.exchange.snap_queue and not self.exchange.pending_async and not getattr(self, "pending_books", None)
 
     def do(self, ev):
         from flumine.events import events
@@ -968,6 +980,9 @@ class LiveWorld:
             self.budgets["tick"] -= 1
             self.clock_ms += int(ev[1] * 1000) if len(ev) > 1 else 3600_000
             self.set_clock()
+        elif k == "B":
+            mid = self.pending_books.pop(0)
+            self.dispatch(self._book_event(mid))
         elif k == "CRASH":
             self.budgets["crash"] -= 1
             self.crash(ev[1])
@@ -990,9 +1005,10 @@ class LiveWorld:
         self.generation += 1
         self.old_framework = self.framework
         self.old_strategies = self.strategies
+        self.late_books = image.endswith("-late")
         self.build_framework()
         for mid in sorted({b.market_id for b in self.exchange.bets.values()}):
-            self.exchange.publish(mid, [], fresh=True, executable_only=(image == "executable"))
+            self.exchange.publish(mid, [], fresh=True, executable_only=image.startswith("executable"))
         self.last_delivered = None
 
     # -- canonical state for dedup
@@ -1044,7 +1060,7 @@ class LiveWorld:
         last = None
         if self.last_delivered is not None and self.budgets["dup"] > 0:
             last = tuple((o.bet_id, o.status, o.size_matched, o.size_remaining) for o in self.last_delivered[1].orders)
-        return (tuple(out), tasks, snaps, self.exchange.table(), len(self.exchange.pending_async), self.script_pos, tuple(sorted(self.budgets.items())), tuple(cl), last, len(self.exchange.calls), self.generation)
+        return (tuple(out), tasks, snaps, self.exchange.table(), len(self.exchange.pending_async), self.script_pos, tuple(sorted(self.budgets.items())), tuple(cl), last, len(self.exchange.calls), self.generation, tuple(getattr(self, "pending_books", ())))
 
 
 # --------------------------------------------------------------------------------------
